@@ -389,6 +389,10 @@ func (o *operation) validate(transcoder *Transcoder) error {
 	if queryVars != nil {
 		// memoize this, so we don't have to parse query string again later
 		o.queryVars = queryVars
+	} else if clientProtoHandler.protocol() == ProtocolREST {
+		// Parse it now: the request URL is rewritten for the backend before the request
+		// message (and with it the query parameters) is assembled.
+		o.queryVars = o.request.URL.Query()
 	}
 	o.originalHeaders = o.request.Header.Clone()
 	o.reqContentType = o.originalHeaders.Get("Content-Type")
